@@ -400,16 +400,16 @@ PROPS["C19"] = P(
         J("c19_serialize_canonical_v2", cfg="serde", unwind=6, uw=mk({r"c19::|Cap": 50}, FMT2, VAL_UW), stubs=STR_STUBS, desc="language-script-region with two variants (text up to 35 bytes)", weight=3, mem_gb=16),
         J("c19_deserialize_str_1", tier="t", cfg="serde", unwind=4, uw=mk({r"Split|position|c19::|sep_frame": 3}, tok_uw(1)), stubs=PARSER_STUBS, desc="Deserialize(visit_str(s)) vs s.parse() for every 1-byte ASCII string", weight=2, mem_gb=30),
         J("c19_deserialize_concrete", cfg="serde", unwind=13, uw=mk({r"Split|position|c19::|sep_frame": 12}, tok_uw(3)), stubs=PARSER_STUBS, desc="the concrete string 'en-Latn-US' through Deserialize and FromStr (reachability of the success path)", weight=1, need_cover=False),
-        J("c19_deserialize_lead", tier="t", cfg="serde", unwind=6, uw=mk({r"Split|position|c19::|sep_frame": 5}, tok_uw(2)), stubs=PARSER_STUBS, desc="Deserialize(visit_str(s)) vs s.parse() on '?en', ? any ASCII byte (leading padding / separator)", weight=2, mem_gb=12),
-        J("c19_deserialize_trail", tier="t", cfg="serde", unwind=6, uw=mk({r"Split|position|c19::|sep_frame": 5}, tok_uw(2)), stubs=PARSER_STUBS, desc="same on 'en?'", weight=2, mem_gb=12),
+        J("c19_deserialize_lead", tier="x", cfg="serde", unwind=6, uw=mk({r"Split|position|c19::|sep_frame": 5}, tok_uw(2)), stubs=PARSER_STUBS, desc="Deserialize(visit_str(s)) vs s.parse() on '?en', ? any ASCII byte (leading padding / separator)", weight=2, mem_gb=12),
+        J("c19_deserialize_trail", tier="x", cfg="serde", unwind=6, uw=mk({r"Split|position|c19::|sep_frame": 5}, tok_uw(2)), stubs=PARSER_STUBS, desc="same on 'en?'", weight=2, mem_gb=12),
         J("c19_deserialize_lead_trail", tier="x", cfg="serde", unwind=10, uw=mk({r"Split|position|c19::|sep_frame": 9}, tok_uw(4)), stubs=PARSER_STUBS, desc="same on '?en-US?'", weight=4, mem_gb=24),
         J("c19_deserialize_frame", tier="x", cfg="serde", unwind=7, uw=mk({r"Split|position|c19::": 7}, tok_uw(1)), stubs=PARSER_STUBS, desc="Deserialize(visit_str(s)) vs s.parse() on 'en?US', ? any ASCII byte", weight=3, mem_gb=16),
         J("c19_deserialize_str_2", tier="x", cfg="serde", unwind=5, uw=mk({r"Split|position|c19::": 4}, tok_uw(2)), stubs=PARSER_STUBS, desc="Deserialize(visit_str(s)) vs s.parse() for every 2-byte ASCII string", weight=3, mem_gb=16),
         J("c19_deserialize_str_3", tier="x", cfg="serde", unwind=7, uw=mk({r"Split|position|c19::": 6}, tok_uw(4)), stubs=PARSER_STUBS, desc="Deserialize(visit_str(s)) vs s.parse() for every ASCII string of <= 3 bytes", weight=3, mem_gb=12),
         J("c19_non_string_rejected", cfg="serde", unwind=6, desc="bool / u64 / i64 / f64 / unit / none / bytes inputs: Err, no panic"),
     ],
-    bounds="Serialize of any language identifier with <= 1 variant and of language-script-region with two variants (text up to 35 bytes) through a capturing Serializer; every non-string kind (bool, u64, i64, f64, unit, none, bytes) through Deserialize; the concrete string 'en-Latn-US' through Deserialize and FromStr (quick). thorough: Deserialize(visit_str(s)) vs s.parse() on every 1-byte ASCII string and on the frames '?en', 'en?' (? any ASCII byte)",
-    outside="serde_json's tokenizer / escapes and serde_json::Value (third-party code); strings longer than the frames; the quick tier decides deserialisation only on one concrete string",
+    bounds="Serialize of any language identifier with <= 1 variant and of language-script-region with two variants (text up to 35 bytes) through a capturing Serializer; every non-string kind (bool, u64, i64, f64, unit, none, bytes) through Deserialize; the concrete string 'en-Latn-US' through Deserialize and FromStr (quick). thorough: Deserialize(visit_str(s)) vs s.parse() on every 1-byte ASCII string",
+    outside="serde_json's tokenizer / escapes and serde_json::Value (third-party code); visit_str on strings of 2+ symbolic bytes (two byte-level parses in one query: the frames '?en' / 'en?' ran out of memory after 27 min) - so beyond 1-byte strings the agreement of Deserialize with FromStr is decided only on one concrete string, and e.g. a whitespace-trimming visitor would not be noticed",
 )
 
 PROPS["C08"] = P(
